@@ -52,15 +52,8 @@ def parse(line):
             'timeouts': int(m.group(5)), 'steps': int(m.group(6)), 'status': status}
 
 
-CODES = ['gen', 'pool.load.numThreads', 'pool.wr.add', 'pool.wr.sub', 'pool.enq.central', 'pool.ring.push', 'pool.ring.push.end', 'pool.ring.push_batch',
-         'pool.steal.push', 'pool.load.numRings', 'pool.inline', 'pool.pop.central', 'pool.pop.ring', 'pool.pop.steal', 'body.begin', 'body.end',
-         'worker.begin', 'worker.end', 'pool.resize.begin', 'pool.stop_all', 'pool.wake_all', 'pool.drain.central.done', 'pool.join.begin',
-         'pool.join.done', 'pool.drain.ring', 'pool.drain.ring.done', 'pool.drain.steal', 'pool.drain.steal.done', 'pool.store.numRings',
-         'pool.store.numSteal', 'pool.store.numThreads', 'pool.threads_started', 'pool.resize.end', 'pool.dtor.begin', 'pool.dtor.end']
-
-
 def event_terms(evs):
-    """(tid, name, a, b) list -> encoded integers (PoolCheck.decode); a popped task's identity = the next body.begin of that thread"""
+    """(tid, name, a, b) list -> Gallina (nat * event) terms; a popped task's identity = the next body.begin of that thread"""
     nxt = {}            # tid -> id of the next body.begin, scanning backwards
     ids = [None] * len(evs)
     for i in range(len(evs) - 1, -1, -1):
@@ -71,24 +64,34 @@ def event_terms(evs):
             ids[i] = nxt.get(t, -1)
             nxt[t] = -1
     out = []
+    one = ('gen', 'body.begin', 'body.end', 'worker.begin', 'worker.end', 'pool.resize.begin', 'pool.inline', 'pool.drain.central.done',
+           'pool.drain.ring.done', 'pool.drain.steal.done', 'pool.store.numRings', 'pool.store.numSteal', 'pool.store.numThreads',
+           'pool.threads_started', 'pool.ring.push.end')
     for i, (t, name, a, b) in enumerate(evs):
-        if name not in CODES:
+        c = EVENTS.get(name)
+        if c is None:
             return None
-        code = CODES.index(name)
-        c = 0
-        if name == 'pool.ring.push' and b != 0:
-            return None
-        if name == 'pool.pop.central':
-            a, b = ids[i], a
-        elif name in ('pool.pop.ring', 'pool.pop.steal'):
-            a, b, c = a, ids[i], b
-        elif name in ('pool.drain.ring', 'pool.drain.steal'):
-            a, b = a, ids[i]
+        if name in one:
+            e = '%s %s' % (c, Z(a))
+        elif name == 'pool.ring.push':
+            if b != 0:
+                return None
+            e = '%s %s' % (c, Z(a))
         elif name == 'pool.load.numThreads':
-            a = 1 if a != 0 else 0
-        if not all(-2 <= x <= 1021 for x in (a, b, c)) or t >= 4096:
-            return None
-        out.append(str((((t * 64 + code) * 1024 + (a + 2)) * 1024 + (b + 2)) * 1024 + (c + 2)))
+            e = '%s %s %s' % (c, B(a != 0), Z(b))
+        elif name == 'pool.steal.push':
+            e = '%s %s %s' % (c, Z(a), B(b != 0))
+        elif name in ('pool.wr.add', 'pool.wr.sub', 'pool.enq.central', 'pool.ring.push_batch', 'pool.load.numRings'):
+            e = '%s %s %s' % (c, Z(a), Z(b))
+        elif name == 'pool.pop.central':
+            e = '%s %s %s' % (c, Z(ids[i]), Z(a))
+        elif name in ('pool.pop.ring', 'pool.pop.steal'):
+            e = '%s %s %s %s' % (c, Z(a), Z(ids[i]), Z(b))
+        elif name in ('pool.drain.ring', 'pool.drain.steal'):
+            e = '%s %s %s' % (c, Z(a), Z(ids[i]))
+        else:
+            e = c
+        out.append('(%d%%nat,%s)' % (t, e))
     return out
 
 
@@ -183,11 +186,12 @@ def run_pool(ctx, prop):
     return [(c, p, o, v) for (c, p, o), v in zip(kept, res)]
 
 
-def judge(ctx, terms, shard_size=40, jobs=12, timeout=900):
+def judge(ctx, terms, shard_size=None, jobs=6, timeout=900):
     """evaluate `map judge_pool terms` in Coq, sharded; returns list of int lists or None"""
     import concurrent.futures as cf
     if not terms:
         return []
+    shard_size = shard_size or max(20, (len(terms) + jobs - 1) // jobs)     # coqc start-up dominates: few large shards
     shards = [terms[i:i + shard_size] for i in range(0, len(terms), shard_size)]
 
     def one(ix):
